@@ -112,7 +112,7 @@ func makeBounds(thorough bool) *bounds {
 
 const requestRule = "coin i of a state receives (i+1)*1000000+100000 sat; statuses: unconfirmed, 1 conf, 3 confs, coinbase with maturity-1 confs, coinbase with exactly maturity confs, spent by an unconfirmed / by a confirmed foreign tx (receipt 3 confs), confirmed then disconnected, LockOutpoint, LeaseOutput 24h, LeaseOutput with expiry in the past (3 confs each). " +
 	"requests per state: key scope in {nil, every scope of a coin of the state, one scope without coins} x account {0,1} x minconf ({0,1,2,6} if a coin has <=1 confirmations else {1,6}) x fee 1000 sat/kvB, and for each of these: " +
-	"(a) coin selection through CreateSimpleTx (signed), FundPsbt without inputs and SendOutputs (accepted broadcast) x amount {10000 sat, sum(eligible)-2000} x strategy {CoinSelectionLargest, a harness strategy for every preference order of the state's coins}, plus CreateSimpleTx dry-run with CoinSelectionLargest (only 10000 sat / Largest when the oracle's eligible set is empty: then every success is a violation whatever the strategy); " +
+	"(a) coin selection through CreateSimpleTx (signed), FundPsbt without inputs and SendOutputs (accepted broadcast) x amount {10000 sat, sum(eligible)-2000; CreateSimpleTx/Largest also sum(eligible) minus the first fee guess of txauthor for each change script size, where the input source is asked twice} x strategy {CoinSelectionLargest, a harness strategy for every preference order of the state's coins}, plus CreateSimpleTx dry-run with CoinSelectionLargest (only 10000 sat / Largest when the oracle's eligible set is empty: then every success is a violation whatever the strategy); " +
 	"(b) explicit selection of every non-empty subset of the state's coins through CreateSimpleTx(WithCustomSelectUtxos) (signed and dry-run), SendOutputsWithInput and FundPsbt with pre-set inputs x amount {10000, sum(selected)-2000} (10000 only when a selected coin is ineligible: the call must fail anyway); " +
 	"(c) the duplicated selection [c,c] of every eligible coin c through CreateSimpleTx, SendOutputsWithInput, FundPsbt; " +
 	"(d) for minconf<=1 and a non-empty eligible set: every ordering of {10000, 10000, sum(eligible)-2000} as three successive SendOutputs with accepted broadcasts (Quiesce after each) x strategy {CoinSelectionLargest, smallest-coin-first order}; the change outputs of earlier sends join the oracle's coin set. " +
@@ -478,6 +478,18 @@ func (x *explorer) exploreState(specs []CoinSpec) {
 							rd := r
 							rd.DryRun = true
 							x.do(w, &rd)
+						}
+						if stg == nil && am == "most" {
+							// the whole eligible value minus the author's FIRST fee guess (one
+							// P2TR input; per change script size): the first fetch just fits,
+							// the real fee does not, the input source is asked a second time
+							for _, e := range []string{"edge22", "edge23", "edge25", "edge34"} {
+								for _, fr := range append([]int64{1000}, x.b.feeExtra...) {
+									re := r
+									re.Amount, re.FeeRate = e, fr
+									x.do(w, &re)
+								}
+							}
 						}
 						r.Entry = "FundPsbt"
 						x.do(w, &r)
